@@ -204,7 +204,56 @@ pub fn tstate_key(rig: &mut Rig) -> u64 {
 }
 
 /// Execute a history on a fresh rig, checking every step against the specification.
+/// Does the driver under test send a solid fill as a pixel stream (one word per pixel through the interface) instead
+/// of `send_repeated_pixel`?  Both satisfy every property; the difference matters to the harness only, because a
+/// streamed fill of a 65535 x 65535 window cannot be simulated (8.6e9 words).  Probed once on a small display.
+pub fn streams_solid_fills() -> bool {
+    static P: std::sync::OnceLock<bool> = std::sync::OnceLock::new();
+    *P.get_or_init(|| {
+        let cfg = Cfg::tiny(4, 3, false, Transport::RecSerial, (4, 3, 0, 0), 0);
+        let mut rig = Rig::new(&cfg);
+        let ev0 = rig.bd.borrow().evs.len();
+        let _ = rig.apply(&Op::Clear { c: 0x1234 });
+        let b = rig.bd.borrow();
+        !b.evs[ev0..].iter().any(|e| matches!(e, crate::env::Ev::Repeat { .. }))
+    })
+}
+
+/// words a solid fill of this operation puts on the bus
+fn solid_fill_words(cfg: &Cfg, geo: &crate::spec::Geo, op: &Op) -> u64 {
+    let (lw, lh) = geo.lsize();
+    let area = match op {
+        Op::Clear { .. } => lw as u64 * lh as u64,
+        Op::FillSolid { r, .. } => {
+            let x0 = (r.x as i64).max(0);
+            let y0 = (r.y as i64).max(0);
+            let x1 = (r.x as i64 + r.w as i64).min(lw as i64);
+            let y1 = (r.y as i64 + r.h as i64).min(lh as i64);
+            if x1 > x0 && y1 > y0 {
+                (x1 - x0) as u64 * (y1 - y0) as u64
+            } else {
+                0
+            }
+        }
+        _ => 0,
+    };
+    area * if cfg.tr.bus16() { 1 } else if cfg.c666() { 3 } else { 2 }
+}
+
 pub fn check_history(cfg: &Cfg, hist: &[Op], ck: &Checks) -> Result<Run, (Fail, Option<Run>)> {
+    // histories the harness cannot simulate on this driver are reported as inconclusive (report.rs counts them
+    // and lists them as a cap), never as violations
+    {
+        let mut g = cfg.geo();
+        for (i, op) in hist.iter().enumerate() {
+            if let Op::SetOrientation(o) = op {
+                g.orient = *o;
+            }
+            if solid_fill_words(cfg, &g, op) > DEFAULT_BUDGET / 2 && streams_solid_fills() {
+                return Err((Fail { sig: "inconclusive/giant-solid-fill-streamed-by-this-driver".into(), msg: format!("{op:?} would put more than {} words through the interface one by one", DEFAULT_BUDGET / 2), at: i }, None));
+            }
+        }
+    }
     let mut rig = Rig::new(cfg);
     rig.ctl.keep_cmds = true;
     if ck.cell_sequences {
